@@ -172,6 +172,10 @@ func solve(o *Obligation, dir string, timeout int, keep bool) *SolveResult {
 			}
 			lean = append(lean, h)
 		}
+		if l2, d2 := dropUnusedStoreEquiv(lean, o.Goal); d2 > 0 {
+			lean = l2
+			dropped += d2
+		}
 		if dropped > 0 {
 			termMu.Lock()
 			cache := map[*Term]*Term{}
